@@ -108,11 +108,11 @@ Section Tuto.
   Lemma tuto_cycle_ok n a k msgs a' p r : tQ n a -> tuto_cycle dom nbrs n a k msgs = (a', p, r) -> tQ n a'.
   Proof.
     intros [H1 H2]. unfold tuto_cycle. destruct (t_evs a) as [|[imp mask] evs'].
-    - intros H; inversion H; subst. split; simpl; auto. apply Forall_app. split; auto. constructor; simpl; auto.
+    - intros H; inversion H; subst. split; simpl; auto. apply Forall_app. split; auto; repeat constructor.
     - destruct imp.
       + destruct (draw (t_orc a)) as [rr o]. destruct (rr <? 500).
         * destruct (masked (dom n) mask) as [|v l] eqn:Em.
-          -- intros H; inversion H; subst. split; simpl; auto. apply Forall_app. split; auto. constructor; simpl; auto.
+          -- intros H; inversion H; subst. split; simpl; auto. apply Forall_app. split; auto; repeat constructor.
           -- destruct (vsel n (t_val a) (Some v)) as [cur e] eqn:Ev.
              apply (vsel_ok dom) in Ev; auto.
              ++ intros H; inversion H; subst. split; simpl; [tauto|apply Forall_app; tauto].
@@ -158,7 +158,7 @@ Section Adsa.
       + destruct (vsel n (a_val s) (Some v)) as [cur ev] eqn:Ev.
         apply (vsel_ok dom) in Ev; auto; [|simpl; apply Hv; eapply pick_In; eauto].
         intros H; inversion H; subst. unfold aJ; simpl. tauto.
-      + intros H; inversion H; subst. unfold aJ; simpl. split; auto. constructor; simpl; auto.
+      + intros H; inversion H; subst. unfold aJ; simpl. split; auto; repeat constructor.
     - intros H; inversion H; subst. unfold aJ; simpl. split; auto.
   Qed.
 
@@ -170,15 +170,15 @@ Section Adsa.
     intros H; inversion H; subst. clear H.
     destruct (Nat.eqb _ _).
     - destruct (a_evs s) as [|[[dpos viol] mask] evs'].
-      + inversion E; subst. split; auto. constructor; simpl; auto.
+      + inversion E; subst. split; auto; repeat constructor.
       + assert (Hm : forall v, In v (masked (dom n) mask) -> In v (dom n)) by (intros; eapply masked_incl; eauto).
         assert (Hw : forall v, In v (without_cur (a_val s) (masked (dom n) mask)) -> In v (dom n))
           by (intros v Hv; apply Hm; eapply without_cur_incl; eauto).
-        destruct dpos; [eapply prob_change_ok; eauto|].
+        destruct dpos; [exact (prob_change_ok _ _ _ _ _ _ HJ Hm E)|].
         destruct (variant =? 0); [inversion E; subst; split; auto|].
         destruct (variant =? 1).
-        * destruct viol; [eapply prob_change_ok; eauto|inversion E; subst; split; auto].
-        * eapply prob_change_ok; eauto.
+        * destruct viol; [exact (prob_change_ok _ _ _ _ _ _ HJ Hw E)|inversion E; subst; split; auto].
+        * exact (prob_change_ok _ _ _ _ _ _ HJ Hw E).
     - inversion E; subst. split; auto.
   Qed.
 
@@ -190,13 +190,13 @@ Section Adsa.
       + destruct (vsel n (a_val s) (Some v)) as [cur ev] eqn:Ev.
         apply (vsel_ok dom) in Ev; auto.
         intros H; inversion H; subst. unfold aJ; simpl. split; [tauto|].
-        apply Forall_app. split; [tauto|]. constructor; simpl; auto.
-      + intros H; inversion H; subst. unfold aJ; simpl. split; auto. constructor; simpl; auto.
+        apply Forall_app. split; [tauto|]. repeat constructor.
+      + intros H; inversion H; subst. unfold aJ; simpl. split; auto; repeat constructor.
     - destruct (draw (a_orc s)) as [i o]. destruct (pick (dom n) i) as [v|] eqn:Ep.
       + destruct (vsel n (a_val s) (Some v)) as [cur ev] eqn:Ev.
         apply (vsel_ok dom) in Ev; auto; [|simpl; eapply pick_In; eauto].
         intros H; inversion H; subst. unfold aJ; simpl. tauto.
-      + intros H; inversion H; subst. unfold aJ; simpl. split; auto. constructor; simpl; auto.
+      + intros H; inversion H; subst. unfold aJ; simpl. split; auto; repeat constructor.
   Qed.
 
   Theorem adsa_selects_in_domain_l : forall sched,
@@ -204,25 +204,186 @@ Section Adsa.
     (forall n, ok (dom n) (a_val (w_st (nodes (fst (run PA sched)) n)))).
   Proof.
     intros sched.
-    pose proof (net_inv PA aJ (fun _ _ _ => True) (sev_ok dom)) as H.
-    assert (G : good PA aJ (fun _ _ _ => True) (fst (run PA sched)) /\ Forall (sev_ok dom) (snd (run PA sched))).
-    { apply H.
-      - intros n. unfold aJ; simpl; auto.
-      - intros n s s' outs evs HJ Hs. simpl in Hs. unfold adsa_start in Hs.
-        destruct (draw (a_orc s)) as [x o]. inversion Hs; subst.
-        split; [exact HJ|]. split; [|constructor]. constructor; simpl; auto.
-      - intros n s src m s' outs evs HJ _ Hs. simpl in Hs. unfold adsa_recv in Hs.
-        assert (Ho : forall (l : list (node * amsg)), outs_ok (fun _ _ _ => True) n l).
-        { intros l. unfold outs_ok. rewrite Forall_forall. auto. }
-        destruct m.
-        + inversion Hs; subst. split; [exact HJ|]. split; [apply Ho|constructor].
-        + destruct (a_stopped s).
-          * inversion Hs; subst. split; [exact HJ|]. split; [apply Ho|constructor].
-          * destruct (a_started s).
-            -- apply adsa_tick_ok in Hs; auto. destruct Hs. split; auto.
-            -- apply adsa_delayed_ok in Hs; auto. destruct Hs. split; auto. }
-    destruct G as [(G1 & _) G2]. split.
+    assert (Ho : forall n (l : list (node * amsg)), outs_ok (fun _ _ _ => True) n l).
+    { intros n l. unfold outs_ok. rewrite Forall_forall. auto. }
+    assert (Hi : forall n, aJ n (p_init PA n)) by (intros n; unfold aJ; simpl; auto).
+    assert (Hs : forall n s s' outs evs, aJ n s -> p_start PA n s = (s', outs, evs) ->
+              aJ n s' /\ outs_ok (fun _ _ _ => True) n outs /\ Forall (sev_ok dom) evs).
+    { intros n s s' outs evs HJ Hq. simpl in Hq. unfold adsa_start in Hq.
+      destruct (draw (a_orc s)) as [x o]. inversion Hq; subst.
+      split; [exact HJ|]. split; [apply Ho|constructor]. }
+    assert (Hr : forall n s src m s' outs evs, aJ n s -> True -> p_recv PA n s src m = (s', outs, evs) ->
+              aJ n s' /\ outs_ok (fun _ _ _ => True) n outs /\ Forall (sev_ok dom) evs).
+    { intros n s src m s' outs evs HJ _ Hq. simpl in Hq. unfold adsa_recv in Hq.
+      destruct m.
+      - inversion Hq; subst. split; [exact HJ|]. split; [apply Ho|constructor].
+      - destruct (a_stopped s).
+        + inversion Hq; subst. split; [exact HJ|]. split; [apply Ho|constructor].
+        + destruct (a_started s).
+          * apply adsa_tick_ok in Hq; auto. destruct Hq. split; auto.
+          * apply adsa_delayed_ok in Hq; auto. destruct Hq. split; auto. }
+    destruct (net_inv PA aJ (fun _ _ _ => True) (sev_ok dom) Hi Hs Hr sched) as [(G1 & _) G2].
+    split.
     - rewrite Forall_forall in G2. exact G2.
     - intros n. apply G1.
   Qed.
 End Adsa.
+
+(* ------------------------------------------------------------------ 2c. gdba *)
+Section Gdba.
+  Variable dom : node -> list Z.
+  Variable init : node -> option Z.
+  Variable nbrs : node -> list node.
+  Variable iso : node -> option Z.
+  Variable mx : bool.
+  Variable orc : node -> list Z.
+  Variable gevs : node -> list (Z * list bool).
+  Hypothesis iso_ok : forall n, ok (dom n) (iso n).      (* C06: optimal_cost_value returns a domain value *)
+  Hypothesis init_ok : forall n, ok (dom n) (init n).    (* Variable.__init__ checks the initial value *)
+
+  Let PG := gdba_proto dom init nbrs iso mx orc gevs.
+
+  Definition gJ (n : node) (s : gst) : Prop := ok (dom n) (g_val s) /\ ok (dom n) (g_new s).
+  Definition good_res (n : node) (r : gres) : Prop :=
+    gJ n (fst (fst (fst r))) /\ Forall (sev_ok dom) (snd (fst r)).
+  Definition good_k (n : node) (k : gst -> gres) : Prop := forall s, gJ n s -> good_res n (k s).
+
+  Lemma guard_pok_good n : good_k n (g_guard_pok n).
+  Proof. intros s HJ. unfold g_guard_pok, good_res. destruct (g_pok s); simpl; split; auto; repeat constructor. Qed.
+  Lemma guard_pimp_good n : good_k n (g_guard_pimp n).
+  Proof. intros s HJ. unfold g_guard_pimp, good_res. destruct (g_pimp s); simpl; split; auto; repeat constructor. Qed.
+
+  Lemma g_ok_step_good n nested : good_k n nested ->
+    forall s src v, gJ n s -> good_res n (g_ok_step dom nbrs mx n nested s src v).
+  Proof.
+    intros Hk s src v [H1 H2]. unfold g_ok_step.
+    destruct (Nat.eqb _ _).
+    - destruct (g_evs s) as [|[imp mask] evs'].
+      + unfold good_res, gJ; simpl. split; auto; repeat constructor.
+      + destruct (improving mx imp).
+        * destruct (draw (g_orc s)) as [i o]. destruct (pick (masked (dom n) mask) i) as [w|] eqn:Ep.
+          -- match goal with |- context [nested ?s2] =>
+               assert (HJ2 : gJ n s2); [|specialize (Hk s2 HJ2); destruct (nested s2) as [[[s3 o3] e3] r3]] end.
+             { split; simpl; auto. eapply masked_incl. eapply pick_In; eauto. }
+             unfold good_res in *; simpl in *. exact Hk.
+          -- unfold good_res, gJ; simpl. split; auto; repeat constructor.
+        * match goal with |- context [nested ?s2] =>
+            assert (HJ2 : gJ n s2); [|specialize (Hk s2 HJ2); destruct (nested s2) as [[[s3 o3] e3] r3]] end.
+          { split; simpl; auto. }
+          unfold good_res in *; simpl in *. exact Hk.
+    - unfold good_res, gJ; simpl. split; auto.
+  Qed.
+
+  Lemma g_imp_step_good n nested : good_k n nested ->
+    forall s src i, gJ n s -> good_res n (g_imp_step nbrs mx n nested s src i).
+  Proof.
+    intros Hk s src i [H1 H2]. unfold g_imp_step.
+    destruct (Nat.eqb _ _).
+    - destruct (g_max_list n (g_imp s) _) as [maxi ml].
+      match goal with |- context [let '(cur, e) := ?X in _] => destruct X as [cur e] eqn:Ev end.
+      assert (Hv : ok (dom n) cur /\ Forall (sev_ok dom) e).
+      { revert Ev. destruct (improving mx (g_imp s) && g_wins n ml); intros Ev.
+        - exact (vsel_ok dom n _ _ _ _ H1 H2 Ev).
+        - inversion Ev; subst. split; auto. }
+      destruct Hv as [Hv1 Hv2].
+      match goal with |- context [nested ?s2] =>
+        assert (HJ2 : gJ n s2); [|specialize (Hk s2 HJ2); destruct (nested s2) as [[[s3 o3] e3] r3]] end.
+      { split; simpl; auto. }
+      unfold good_res in *; simpl in *. destruct Hk. split; auto. apply Forall_app; auto.
+    - unfold good_res, gJ; simpl. split; auto.
+  Qed.
+
+  Lemma g_replay_good {M} n (h : gst -> node -> M -> gres) :
+    (forall s src m, gJ n s -> good_res n (h s src m)) ->
+    forall l s, gJ n s -> good_res n (g_replay h s l).
+  Proof.
+    intros Hh. induction l as [|[src m] r IH]; intros s HJ; simpl.
+    - unfold good_res; simpl. split; auto.
+    - pose proof (Hh s src m HJ) as H1. destruct (h s src m) as [[[s1 o1] e1] r1].
+      unfold good_res in H1; simpl in H1. destruct H1 as [A B].
+      destruct r1; [unfold good_res; simpl; split; auto|].
+      specialize (IH s1 A). destruct (g_replay h s1 r) as [[[s2 o2] e2] r2].
+      unfold good_res in *; simpl in *. destruct IH. split; auto. apply Forall_app; auto.
+  Qed.
+
+  Lemma g_go_imp_good n : good_k n (g_go_imp nbrs mx n).
+  Proof.
+    intros s HJ. unfold g_go_imp.
+    pose proof (g_replay_good n _ (g_imp_step_good n _ (guard_pok_good n)) (g_pimp s) s HJ) as H.
+    destruct (g_replay _ s (g_pimp s)) as [[[s1 o] e] r]. unfold good_res in *; simpl in *.
+    destruct r; simpl; auto.
+  Qed.
+
+  Lemma g_go_ok_good n : good_k n (g_go_ok dom nbrs mx n).
+  Proof.
+    intros s HJ. unfold g_go_ok.
+    pose proof (g_replay_good n _ (g_ok_step_good n _ (guard_pimp_good n)) (g_pok s) s HJ) as H.
+    destruct (g_replay _ s (g_pok s)) as [[[s1 o] e] r]. unfold good_res in *; simpl in *.
+    destruct r; simpl; auto.
+  Qed.
+
+  Lemma gdba_recv_ok n s src m s' outs evs :
+    gJ n s -> gdba_recv dom nbrs mx n s src m = (s', outs, evs) -> gJ n s' /\ Forall (sev_ok dom) evs.
+  Proof.
+    intros HJ. unfold gdba_recv. destruct m as [v|i].
+    - destruct (g_mode s).
+      + intros H; inversion H; subst. split; auto.
+      + pose proof (g_ok_step_good n _ (g_go_imp_good n) s src v HJ) as G.
+        destruct (g_ok_step _ _ _ _ _ s src v) as [[[s1 o] e] r]. unfold good_res in G; simpl in *.
+        intros H; inversion H; subst. exact G.
+      + intros H; inversion H; subst. split; auto.
+    - destruct (g_mode s).
+      + intros H; inversion H; subst. split; auto.
+      + intros H; inversion H; subst. split; auto.
+      + pose proof (g_imp_step_good n _ (g_go_ok_good n) s src i HJ) as G.
+        destruct (g_imp_step _ _ _ _ s src i) as [[[s1 o] e] r]. unfold good_res in G; simpl in *.
+        intros H; inversion H; subst. exact G.
+  Qed.
+
+  Lemma gdba_start_ok n s s' outs evs :
+    gJ n s -> gdba_start dom init nbrs iso mx n s = (s', outs, evs) -> gJ n s' /\ Forall (sev_ok dom) evs.
+  Proof.
+    intros [H1 H2]. unfold gdba_start. destruct (nbrs n) eqn:En.
+    - pose proof (iso_ok n) as Hi. destruct (iso n) as [v|].
+      + destruct (vsel n (g_val s) (Some v)) as [cur e] eqn:Ev.
+        apply (vsel_ok dom) in Ev; auto. destruct Ev as [E1 E2].
+        intros H; inversion H; subst. split; [split; simpl; auto|].
+        apply Forall_app. split; auto. repeat constructor.
+      + intros H; inversion H; subst. split; [split; auto|repeat constructor].
+    - match goal with |- context [match ?X with Some _ => _ | None => (s, [], [SErr n 1]) end] =>
+        destruct X as [[v o]|] eqn:Ef end.
+      + assert (Hv : ok (dom n) v).
+        { pose proof (init_ok n) as Hi. destruct (init n) as [w|].
+          - inversion Ef; subst. exact Hi.
+          - destruct (draw (g_orc s)) as [i o']. destruct (pick (dom n) i) as [w|] eqn:Ep; [|discriminate].
+            inversion Ef; subst. simpl. eapply pick_In; eauto. }
+        destruct (vsel n (g_val s) v) as [cur e] eqn:Ev.
+        apply (vsel_ok dom) in Ev; auto. destruct Ev as [E1 E2].
+        match goal with |- context [g_go_ok dom nbrs mx n ?s1] =>
+          assert (HJ1 : gJ n s1) by (split; simpl; auto);
+          pose proof (g_go_ok_good n s1 HJ1) as G; destruct (g_go_ok dom nbrs mx n s1) as [[[s2 o2] e2] r2] end.
+        unfold good_res in G; simpl in G. destruct G as [G1 G2].
+        intros H; inversion H; subst. split; auto. apply Forall_app; auto.
+      + intros H; inversion H; subst. split; [split; auto|repeat constructor].
+  Qed.
+
+  Theorem gdba_selects_in_domain_l : forall sched,
+    (forall e, In e (snd (run PG sched)) -> sev_ok dom e) /\
+    (forall n, ok (dom n) (g_val (w_st (nodes (fst (run PG sched)) n)))).
+  Proof.
+    intros sched.
+    assert (Ho : forall n (l : list (node * gmsg)), outs_ok (fun _ _ _ => True) n l).
+    { intros n l. unfold outs_ok. rewrite Forall_forall. auto. }
+    assert (Hi : forall n, gJ n (p_init PG n)) by (intros n; split; simpl; auto).
+    assert (Hs : forall n s s' outs evs, gJ n s -> p_start PG n s = (s', outs, evs) ->
+              gJ n s' /\ outs_ok (fun _ _ _ => True) n outs /\ Forall (sev_ok dom) evs).
+    { intros n s s' outs evs HJ Hq. simpl in Hq. apply gdba_start_ok in Hq; auto. destruct Hq. auto. }
+    assert (Hr : forall n s src m s' outs evs, gJ n s -> True -> p_recv PG n s src m = (s', outs, evs) ->
+              gJ n s' /\ outs_ok (fun _ _ _ => True) n outs /\ Forall (sev_ok dom) evs).
+    { intros n s src m s' outs evs HJ _ Hq. simpl in Hq. apply gdba_recv_ok in Hq; auto. destruct Hq. auto. }
+    destruct (net_inv PG gJ (fun _ _ _ => True) (sev_ok dom) Hi Hs Hr sched) as [(G1 & _) G2].
+    split.
+    - rewrite Forall_forall in G2. exact G2.
+    - intros n. apply G1.
+  Qed.
+End Gdba.
